@@ -571,7 +571,9 @@ class CWorld:
             if not set(from_s) <= raws or len(set(from_s)) != len(from_s):
                 out.append(("respond:value-not-in-storage", f"S answered find(key{k}) with "
                                                             f"{[self.value_name(v) for v in from_s]}, holds {self.listing()}"))
-            elif len(from_s) < min(len(live), 8) or (len(live) <= 8 and not live <= set(from_s)):
+            elif len(from_s) < min(len(live), 8) or (len(raws) <= 8 and not live <= set(from_s)):
+                # (with more than MAX_VALUES_IN_FIND values stored any 8 of them are a complete answer: the reader pages
+                # with ``offset``)
                 out.append(("respond:stored-value-withheld", f"S answered find(key{k}) with "
                                                              f"{[self.value_name(v) for v in from_s]}, holds {self.listing()}"))
         elif stored:
